@@ -1468,10 +1468,13 @@ def tok_15(ctx, rep):
             return all(ev(x, flags) for x in fm[1])
         return any(ev(x, flags) for x in fm[1])
     nfas = [rx.compile_nfa(a) for a in atoms_]
+    done = {}
     for version in ((3, 6), (3, 12)):
         env = ctx.token_collection(version)
-        number = rx.compile_nfa(env['Number'])
-        w = rx._search(nfas + [number], lambda fl: fl[-1] and not ev(formula, fl[:-1]))
+        if env['Number'] not in done:
+            number = rx.compile_nfa(env['Number'])
+            done[env['Number']] = rx._search(nfas + [number], lambda fl: fl[-1] and not ev(formula, fl[:-1]))
+        w = done[env['Number']]
         rep.ob('TOK-15', TOK, f.qual, 'every Number (%d.%d) satisfies `%s`' % (version + (norm(guard.test, 120),)), w is None,
                'the literal %r matches the Number pattern but not the condition of the NUMBER branch: it is typed by a later '
                'branch (operator / name)' % (w,), witness=w)
